@@ -186,6 +186,19 @@ Proof.
 Qed.
 Print Assumptions C19_uncaught_text.
 
+(* an uncaught instance of a user error type (Sub.prototype = new Error(), any depth
+   of the chain): Error() is 15.11.4.4 of the thrown object itself, whatever error
+   object sits on its prototype chain *)
+Theorem C19_uncaught_text_derived : forall pn pm cn cm,
+  uncaught_text (ThDerived pn pm cn cm) = spec_text (ThDerived pn pm cn cm).
+Proof. exact uncaught_text_derived. Qed.
+Print Assumptions C19_uncaught_text_derived.
+
+Theorem C19_prototype_payload_refuted : exists pn pm cn cm,
+  format pn pm <> spec_text (ThDerived pn pm cn cm).
+Proof. exact prototype_payload_refuted. Qed.
+Print Assumptions C19_prototype_payload_refuted.
+
 (* otto's deviations, as refutations with concrete witnesses *)
 Theorem C19_parsethrow_class_refuted : exists k, model_class k <> spec_class k.
 Proof. exists 20. vm_compute. discriminate. Qed.
